@@ -34,7 +34,7 @@ class Ob:
 
     def __init__(self, id, prop, params, body, pre=None, replay=None, funcs=(), skeleton="",
                  bound="", timeout=30.0, opaque_repr=True, region=None, struct_model=True,
-                 oracle="", setup=None, direct=None):
+                 oracle="", setup=None, direct=None, fresh=False):
         self.id = id
         self.prop = prop
         self.params = list(params)
@@ -53,6 +53,9 @@ class Ob:
         # direct: callable() -> (verdict, detail, cex|None, n_queries, solver_s): an obligation discharged by
         # a direct SMT query (engine/smt.py) instead of CrossHair (E2, DESIGN 2.5)
         self.direct = direct
+        # fresh: run this obligation in its own forked child of the (pristine) parent image, so that module-level
+        # state left behind by earlier obligations of the same worker cannot influence it (history properties)
+        self.fresh = fresh
 
     def describe(self):
         return {
@@ -258,6 +261,30 @@ def run_one(idx):
     return res
 
 
+def _run_fresh(idx):
+    """fork a child for one obligation; the child inherits the worker's image *before* any obligation ran in it only if
+    the worker keeps itself clean: workers serving fresh obligations never execute obligations themselves"""
+    import pickle
+    r_fd, w_fd = os.pipe()
+    pid = os.fork()
+    if pid == 0:
+        try:
+            os.close(r_fd)
+            res = run_one(idx)
+            with os.fdopen(w_fd, "wb") as f:
+                pickle.dump(res, f)
+        finally:
+            os._exit(0)
+    os.close(w_fd)
+    with os.fdopen(r_fd, "rb") as f:
+        data = f.read()
+    os.waitpid(pid, 0)
+    if not data:
+        return {"id": _OBS[idx].id, "verdict": ERROR, "detail": "fresh child produced no result", "cex": None, "twin": None,
+                "paths": 0, "completed": 0, "solver_s": 0.0, "queries": 0, "wall_s": 0.0}
+    return pickle.loads(data)
+
+
 def _worker_main(task_q, result_q):
     sys.setrecursionlimit(10000)
     while True:
@@ -269,7 +296,10 @@ def _worker_main(task_q, result_q):
             return
         result_q.put(("start", idx, os.getpid(), time.time()))
         try:
-            r = run_one(idx)
+            if _OBS[idx].fresh:
+                r = _run_fresh(idx)
+            else:
+                r = run_one(idx)
         except BaseException as e:
             r = {"id": _OBS[idx].id, "verdict": ERROR, "detail": "worker exception %r" % (e,),
                  "cex": None, "twin": None, "paths": 0, "completed": 0, "solver_s": 0.0,
